@@ -122,4 +122,29 @@ CHECKS["C14"] = dict(
            dict(name="retention", run="^TestRetentionWindow$", quick=60, thorough=400, shards_thorough=2)],
 )
 
+_GC_NOTE = "Trusted: the history recorder and invariants in harness/gcprog (one atomic logical clock; 'about to settle' stamped before Ack/Nack). Interleavings are sampled (noise, forced parks at hook points, GOMAXPROCS), not enumerated; absence ('nothing else receivable') is observed over hold windows and can only miss violations. A known finding (C05-F1) is excluded by construction."
+CHECKS["C04"] = dict(
+    pkg="c04", race=True, level="exploration", timeout_quick=900, timeout_thorough=3000,
+    technique="property-based testing of generated concurrent programs (rapid) against a real GoChannel with history invariants; schedule perturbation and forced overlaps through hook points; race detector",
+    level_text="Generated concurrent Publish/Subscribe programs over all configurations run against the real GoChannel; the complete history (every Publish interval, Subscribe interval, receipt with its message object/content/context, settlement) is recorded and checked: delivery to every current subscriber, redelivery grammar, copy separation, context life cycle.",
+    level_note=_GC_NOTE,
+    steps=[dict(name="delivery", run="^TestDelivery$", quick=500, thorough=32000, shards_thorough=16)],
+)
+CHECKS["C05"] = dict(
+    pkg="c05", race=True, level="exploration", timeout_quick=900, timeout_thorough=3000,
+    technique="property-based testing of generated concurrent programs (rapid) against a real GoChannel: hold-window observation of in-flight exclusivity, blocking-Publish/Ack ordering over the recorded history; known finding reproduced separately",
+    level_text="The same program machinery biased to held settlements and blocking mode: the consumer reads its channel while it holds an unsettled message (nothing may arrive), and for blocking mode the history must contain the Ack of every pre-existing subscription before the Publish return stamp, in publish order per publisher; every Publish must return.",
+    level_note=_GC_NOTE,
+    steps=[dict(name="inflight", run="^TestOneInFlightAndBlocking$", quick=500, thorough=32000, shards_thorough=15),
+           dict(name="known-finding", run="^TestKnownFindingF1$", quick=1, thorough=1)],
+)
+CHECKS["C11"] = dict(
+    pkg="c11", race=True, level="exploration", timeout_quick=900, timeout_thorough=3000,
+    technique="property-based testing of generated concurrent Publish/Subscribe programs (rapid) against a persistent GoChannel with forced overlaps at the persist/replay/register hook points; exactly-once multiset oracle at quiescence",
+    level_text="Persistent-mode programs with Subscribe calls overlapping Publish calls (forced by parking one side at the hook points between persisting, sending, replaying and registering) are run; at quiescence every subscription must hold exactly one acked delivery of every successfully published message of its topic.",
+    level_note=_GC_NOTE,
+    steps=[dict(name="replay", run="^TestReplayExactlyOnce$", quick=500, thorough=32000, shards_thorough=12),
+           dict(name="longhistory", run="^TestLongHistoryOverlap$", quick=120, thorough=4000, shards_thorough=4)],
+)
+
 NOT_APPLICABLE = {}
